@@ -312,21 +312,39 @@ func TestC14LongHistory(t *testing.T) {
 		var used blockComps
 		dst := make([]byte, 128)
 		calls := 0
-		_, _ = used.compress(kind, 4, target, make([]byte, len(want))) // the object has seen the target's bytes before
+		// the object has seen nearly the same bytes before, at the same positions, but scanned with another stride
+		// (a run at the start): table entries it left behind point at content the target shares
+		variant := append([]byte(nil), target...)
+		copy(variant, "aaaaaaaaa")
+		variant[1500], variant[1501] = 'z', 'z'
+		_, _ = used.compress(kind, 4, variant, make([]byte, len(want)+64))
 		calls++
-		for _, n := range []int{255, 256, 257, 65535, 65536, 65537, 131071, 131072, 131073} {
+		// (the variant is compressed right after each stop; the stops are spaced so that the target comes 255, 256, 257,
+		// 65535, 65536, 65537 ... calls after a variant)
+		last := 1 // call number of the most recent variant
+		for _, gap := range []int{255, 256, 257, 65535, 65536, 65537, 131071, 131072, 131073} {
+			n := last + gap
 			for calls < n-1 {
 				_, _ = used.compress(kind, 4, small[calls%len(small)], dst)
 				calls++
 			}
 			got := make([]byte, len(want))
-			gn, gerr := used.compress(kind, 4, target, got)
+			var gn int
+			var gerr error
+			if f := safelyF(func() *stat.Failure { gn, gerr = used.compress(kind, 4, target, got); return nil }); f != nil {
+				f.Sig = "C14/block/" + kind[:2] + "/panic-after-a-long-history"
+				judge(t, "C14", "C14/longhistory", map[string]interface{}{"kind": kind, "calls-after-a-related-input": gap}, f)
+			}
 			calls++
+			// and leave the variant's entries behind again for the next stop
+			_, _ = used.compress(kind, 4, variant, make([]byte, len(want)+64))
+			calls++
+			last = calls
 			rec.Eval()
 			rec.Class("block/long-history")
-			rec.NonTrivial(stat.FP("long", kind, n))
+			rec.NonTrivial(stat.FP("long", kind, gap))
 			if gerr != nil || gn != wn || !bytes.Equal(got[:gn], want[:wn]) {
-				judge(t, "C14", "C14/longhistory", map[string]interface{}{"kind": kind, "calls": n}, stat.Failf("C14/block/"+kind[:2]+"/output-depends-on-the-number-of-earlier-calls", "%s: call number %d on the same object gives n=%d err=%v, a fresh compressor gives n=%d (first difference at %d)", kind, calls, gn, gerr, wn, firstDiff(got[:gn], want[:wn])))
+				judge(t, "C14", "C14/longhistory", map[string]interface{}{"kind": kind, "calls-after-a-related-input": gap}, stat.Failf("C14/block/"+kind[:2]+"/output-depends-on-the-number-of-earlier-calls", "%s: call number %d on the same object gives n=%d err=%v, a fresh compressor gives n=%d (first difference at %d)", kind, calls, gn, gerr, wn, firstDiff(got[:gn], want[:wn])))
 			}
 		}
 	}
